@@ -287,7 +287,7 @@ static int role_by_pid(qb_ipcs_connection_t *c)
  * callback waiting for something the stopped client will never send (e.g. the wake-up byte after a queued request).
  * A timer then kills the client -- "it died while the server was waiting for it" -- and the death is logged by
  * whoever logs next, before its own event. */
-static volatile sig_atomic_t g_wd_armed, g_wd_fired;
+static volatile sig_atomic_t g_wd_armed, g_wd_fired, g_wd_ticks, g_wd_seen;
 static int g_died_logged;
 static void log_died(int by_watchdog)
 {
@@ -560,13 +560,18 @@ static void scenario_client(int raw, int transport, int op, int queued, int mode
 	__real_close(sync[1]); g_b1.b[sync[1]] = 0;
 	vt_ev("Spawn"); vt_i(1); vt_res(); vt_end();
 
-	/* the client lives: the server runs only while the client is blocked waiting for it */
+	/* the client lives: the server runs only while the client is blocked waiting for it.  A 150 ms tick watches for
+	 * "client stopped at its crash point while the server is stuck inside a callback waiting for it" (see log_died) */
 	char ch = '?';
 	long long t0 = now_ms();
+	struct itimerval tick = { { 0, 150000 }, { 0, 150000 } }, off = { { 0, 0 }, { 0, 0 } };
+	g_wd_ticks = g_wd_seen = 0;
+	g_wd_armed = 1;
+	setitimer(ITIMER_REAL, &tick, NULL);
 	for (;;) {
 		struct pollfd p = { sync[0], POLLIN, 0 };
 		int blocked = wc_sh->blocked;
-		if (blocked) srv_step(2);
+		if (blocked && !wc_sh->reached) srv_step(2);
 		__real_poll(&p, 1, blocked ? 0 : 1);
 		if (p.revents & POLLIN) { if (read(sync[0], &ch, 1) != 1) ch = '?'; break; }
 		if (p.revents & (POLLHUP | POLLERR)) break;
@@ -580,16 +585,11 @@ static void scenario_client(int raw, int transport, int op, int queued, int mode
 	}
 	static struct snap stale;
 	int have_stale = 0;
-	if (mode == 2 || mode == 3) {
-		struct itimerval it = { { 0, 0 }, { 0, 400000 } }, off = { { 0, 0 }, { 0, 0 } };
-		g_wd_armed = 1;
-		setitimer(ITIMER_REAL, &it, NULL);
-		if (mode == 2) srv_quiesce();
-		else srv_step(0);          /* one round of progress (e.g. the accept), then stale results */
-		g_wd_armed = 0;
-		setitimer(ITIMER_REAL, &off, NULL);
-		alarm(60);
-	}
+	if (mode == 2 && !g_wd_fired) srv_quiesce();
+	if (mode == 3 && !g_wd_fired) srv_step(0);   /* one round of progress (e.g. the accept), then stale results */
+	g_wd_armed = 0;
+	setitimer(ITIMER_REAL, &off, NULL);
+	alarm(60);
 	if ((mode == 1 || mode == 3) && !g_wd_fired) have_stale = srv_poll(&stale, 0) > 0;
 	if (!g_wd_fired) __real_kill(pid, SIGKILL);
 	waitpid(pid, NULL, 0);
@@ -762,11 +762,14 @@ static void scenario_server(int transport, int variant, int queued, int N)
 
 static void on_alarm(int sig)
 {
-	if (g_wd_armed && g_victim_pid > 0) {
-		g_wd_armed = 0; g_wd_fired = 1;
-		__real_kill(g_victim_pid, SIGKILL);
-		alarm(60);
-		return;
+	if (g_wd_armed) {
+		if (++g_wd_ticks < 200) {      /* 30 s */
+			if (g_victim_pid > 0 && wc_sh->reached && !g_wd_fired && ++g_wd_seen >= 3) {
+				g_wd_fired = 1;
+				__real_kill(g_victim_pid, SIGKILL);
+			}
+			return;
+		}
 	}
 	static const char m[] = "{\"e\":\"Hang\",\"a\":[0],\"r\":[]}\n";
 	if (vt_out) (void)!write(fileno(vt_out), m, sizeof m - 1);
